@@ -289,7 +289,7 @@ func NewLane(spec LaneSpec, base string) (*Lane, error) {
 		n.Stop()
 		return nil, err
 	}
-	l.Side.Timeout = 60 * time.Second
+	l.Side.Timeout = 120 * time.Second
 	return l, nil
 }
 
